@@ -29,12 +29,17 @@
 //!   CRD <plan>    the stage-3 driver loop on the CURRENT SyslineReader; plan = string of 0/1 (cyclic,
 //!                 `-` = never): whether the i-th drop_data_try opportunity runs drop_data(bo_first-2)
 //!                 -> CRD OK <sc> <n> <beg,end,nlines,dt,hex>...
+//!   K <kind>      plain | gz | bz2 | lz4: the container of the files written by the following F commands
+//!                 (F then receives the bytes of the STORED form; the readers are opened with that FileType)
 //!   T <hex>       the timestamp oracle on arbitrary bytes: a fresh SyslineReader on a file holding
 //!                 exactly these bytes, find_sysline(0)             -> T <dt seconds> | T None
 //!   lc = lines,stored_highest,hits,miss,lru_hit,lru_miss,lru_put,drop_ok,drop_errors
 //!   sc = syslines,stored_highest,hit,miss,range_hit,range_miss,range_put,lru_hit,lru_miss,lru_put,
 //!        parse_hit,parse_miss,parse_put,drop_ok,drop_errors,syslines stored,lines processed,
 //!        then the nine lc counters of the INNER LineReader (hook verif_linereader_summary)
+//!   both followed by the BlockReader's counters (hooks verif_blockreader_summary): read_block_lru_cache
+//!        hit,miss,put, read_blocks hit,miss,put, reread_error, blocks_highest, dropped ok,err, blocks read
+//!   CXD           BlockReader::disable_drop_data of the SyslineReader (hook)          -> CXD OK <sc>
 use s4lib::common::{FileOffset, FileType, FileTypeArchive, FileTypeTextEncoding, FPath, ResultS3};
 use s4lib::data::line::{LineP, LinePartPtrs};
 use s4lib::data::sysline::SyslineP;
@@ -44,10 +49,32 @@ use s4lib::readers::syslogprocessor::{FileProcessingResultBlockZero, SyslogProce
 use s4verif::*;
 use std::panic::{catch_unwind, AssertUnwindSafe};
 
-const FT: FileType = FileType::Text {
+const FT_PLAIN: FileType = FileType::Text {
     archival_type: FileTypeArchive::Normal,
     encoding_type: FileTypeTextEncoding::Utf8Ascii,
 };
+
+/// container kind of the files written by `F` (command `K plain|gz|bz2|lz4`)
+static KIND: std::sync::atomic::AtomicU8 = std::sync::atomic::AtomicU8::new(0);
+
+fn ft() -> FileType {
+    let a = match KIND.load(std::sync::atomic::Ordering::Relaxed) {
+        1 => FileTypeArchive::Gz,
+        2 => FileTypeArchive::Bz2,
+        3 => FileTypeArchive::Lz4,
+        _ => FileTypeArchive::Normal,
+    };
+    FileType::Text { archival_type: a, encoding_type: FileTypeTextEncoding::Utf8Ascii }
+}
+
+fn ext() -> &'static str {
+    match KIND.load(std::sync::atomic::Ordering::Relaxed) {
+        1 => ".gz",
+        2 => ".bz2",
+        3 => ".lz4",
+        _ => "",
+    }
+}
 
 fn line_bytes(linep: &LineP) -> Vec<u8> {
     let mut v: Vec<u8> = Vec::new();
@@ -88,7 +115,7 @@ fn result_name(r: &FileProcessingResultBlockZero) -> String {
 }
 
 fn raw_driver(path: &FPath, bs: u64) -> String {
-    let mut slr = match SyslineReader::new(path.clone(), FT, bs, tz()) {
+    let mut slr = match SyslineReader::new(path.clone(), ft(), bs, tz()) {
         Ok(v) => v,
         Err(_) => return "R\tErrNew".to_string(),
     };
@@ -116,7 +143,7 @@ fn raw_driver(path: &FPath, bs: u64) -> String {
 
 /// mirrors exec_syslogprocessor of src/bin/s4.rs (no datetime filters)
 fn stage_driver(path: &FPath, bs: u64) -> String {
-    let mut sp = match SyslogProcessor::new(path.clone(), FT, bs, tz(), None, None) {
+    let mut sp = match SyslogProcessor::new(path.clone(), ft(), bs, tz(), None, None) {
         Ok(v) => v,
         Err(_) => return "D\tErrNew".to_string(),
     };
@@ -174,7 +201,28 @@ fn stage_driver(path: &FPath, bs: u64) -> String {
     format!("D\tFileOk\t{}\t{}", items.len(), items.join("\t"))
 }
 
+fn bc(b: &s4lib::readers::blockreader::SummaryBlockReader) -> String {
+    format!(
+        "{},{},{},{},{},{},{},{},{},{},{}",
+        b.blockreader_read_block_lru_cache_hit,
+        b.blockreader_read_block_lru_cache_miss,
+        b.blockreader_read_block_lru_cache_put,
+        b.blockreader_read_blocks_hit,
+        b.blockreader_read_blocks_miss,
+        b.blockreader_read_blocks_put,
+        b.blockreader_read_blocks_reread_error,
+        b.blockreader_blocks_highest,
+        b.blockreader_blocks_dropped_ok,
+        b.blockreader_blocks_dropped_err,
+        b.blockreader_blocks
+    )
+}
+
 fn lc(r: &LineReader) -> String {
+    format!("{},{}", lc0(r), bc(&r.verif_blockreader_summary()))
+}
+
+fn lc0(r: &LineReader) -> String {
     let s = r.summary();
     format!(
         "{},{},{},{},{},{},{},{},{}",
@@ -191,6 +239,10 @@ fn lc(r: &LineReader) -> String {
 }
 
 fn sc(r: &SyslineReader) -> String {
+    format!("{},{}", sc0(r), bc(&r.verif_blockreader_summary()))
+}
+
+fn sc0(r: &SyslineReader) -> String {
     let s = r.summary();
     let l = r.verif_linereader_summary();
     format!(
@@ -317,9 +369,19 @@ fn main() {
                 lr = None;
                 slr = None;
                 nfile += 1;
-                path = format!("{}/c{:06}.log", dir, nfile % 64);
+                path = format!("{}/c{:06}.log{}", dir, nfile % 64, ext());
                 std::fs::write(&path, unhex(arg)).expect("write");
                 println!("F\tOK");
+            }
+            "K" => {
+                let k = match arg {
+                    "gz" => 1,
+                    "bz2" => 2,
+                    "lz4" => 3,
+                    _ => 0,
+                };
+                KIND.store(k, std::sync::atomic::Ordering::Relaxed);
+                println!("K\tOK");
             }
             "B" => {
                 bs = arg.parse().unwrap_or(0);
@@ -327,7 +389,7 @@ fn main() {
                 slr = None;
                 let p = path.clone();
                 let r = catch_unwind(AssertUnwindSafe(|| {
-                    (LineReader::new(p.clone(), FT, bs), SyslineReader::new(p.clone(), FT, bs, tz()))
+                    (LineReader::new(p.clone(), ft(), bs), SyslineReader::new(p.clone(), ft(), bs, tz()))
                 }));
                 match r {
                     Ok((Ok(a), Ok(b))) => {
@@ -360,7 +422,7 @@ fn main() {
                     },
                 };
                 if out == "L\tPANIC" {
-                    lr = LineReader::new(path.clone(), FT, bs).ok();
+                    lr = LineReader::new(path.clone(), ft(), bs).ok();
                 }
                 println!("{}", out);
             }
@@ -384,7 +446,7 @@ fn main() {
                     },
                 };
                 if out == "S\tPANIC" {
-                    slr = SyslineReader::new(path.clone(), FT, bs, tz()).ok();
+                    slr = SyslineReader::new(path.clone(), ft(), bs, tz()).ok();
                 }
                 println!("{}", out);
             }
@@ -433,11 +495,11 @@ fn main() {
                     }
                 };
                 if out.ends_with("PANIC") {
-                    lr = LineReader::new(path.clone(), FT, bs).ok();
+                    lr = LineReader::new(path.clone(), ft(), bs).ok();
                 }
                 println!("{}", out);
             }
-            "CS" | "CSB" | "CSE" | "CDD" | "CDS" | "CRD" => {
+            "CS" | "CSB" | "CSE" | "CDD" | "CDS" | "CRD" | "CXD" => {
                 let out = match slr.as_mut() {
                     None => format!("{}\tNoReader", cmd),
                     Some(r) => {
@@ -469,6 +531,10 @@ fn main() {
                                 }
                                 format!("CSE\tOK\t{}", sc(r))
                             }
+                            "CXD" => {
+                                r.verif_disable_drop_data();
+                                format!("CXD\tOK\t{}", sc(r))
+                            }
                             "CDD" => {
                                 r.drop_data(arg.parse().unwrap_or(0));
                                 format!("CDD\tOK\t{}", sc(r))
@@ -490,7 +556,7 @@ fn main() {
                     }
                 };
                 if out.ends_with("PANIC") {
-                    slr = SyslineReader::new(path.clone(), FT, bs, tz()).ok();
+                    slr = SyslineReader::new(path.clone(), ft(), bs, tz()).ok();
                 }
                 println!("{}", out);
             }
@@ -498,7 +564,7 @@ fn main() {
                 let p = format!("{}/oracle.log", dir);
                 std::fs::write(&p, unhex(arg)).expect("write");
                 let out = catch_unwind(AssertUnwindSafe(|| {
-                    match SyslineReader::new(p.clone(), FT, 0x10000, tz()) {
+                    match SyslineReader::new(p.clone(), FT_PLAIN, 0x10000, tz()) {
                         Ok(mut r) => match r.find_sysline(0) {
                             ResultS3::Found((_, sp)) => format!("T\t{}", sp.dt().timestamp()),
                             _ => "T\tNone".to_string(),
